@@ -14,9 +14,13 @@ TraceNext == /\ l <= Len(Traces[tid])
                        [] e.call = "close" -> Close(e.x)
                        [] e.call = "recvfault" -> RecvFault(e.x)
                        [] e.call = "sendfault" -> SendFault(e.x)
+                       \* the readiness call of a side sitting in serve_all() fails once (EIO): the serve() in progress fails with it
+                       \* and changes nothing; serve_all()'s way out is an ordinary close(), logged as such
+                       [] e.call = "pollfault" -> UNCHANGED vars
+                       [] e.call = "servefail" -> UNCHANGED vars
                        [] OTHER -> FALSE
                   \* a fault fires in the middle of whatever call is running: the flags logged with it are a half-way state
-                  /\ (e.call \notin {"recvfault", "sendfault"}) =>
+                  /\ (e.call \notin {"recvfault", "sendfault", "pollfault"}) =>
                         /\ closed'["A"] = e.cA /\ closed'["B"] = e.cB
                         /\ hooks'["A"] = e.hA /\ hooks'["B"] = e.hB
              /\ l' = l + 1 /\ UNCHANGED tid
